@@ -206,13 +206,48 @@ def _run_one(check, c, variant, reg, tier, seed=0, conformance_paths=None):
             if kf.get('status') == 'known' and kf.get('function') == c.target and kf.get('class'):
                 excl.append(tobool(NOT(c.known_classes[kf['class']](K, a))))
         axioms = list(rep.axioms) + excl
-        solve_all(rep.obligations, axioms, hints=getattr(rep, 'size_hints', ()))
-        # a cover the solver cannot decide (satisfiability under quantified hypotheses) is discharged by a concrete
-        # WITNESS supplied by the contract: the precondition is evaluated on it (bounded quantifiers expanded)
-        for ob in rep.obligations:
-            if ob.kind == 'cover' and ob.status != 'discharged' and hasattr(c, 'witness'):
-                if witness_ok(c, rep, variant):
-                    ob.status, ob.backend = 'discharged', 'GROUND(witness)'
+        # a cover (satisfiability of the precondition) is discharged by the contract's concrete WITNESS when it
+        # has one: the precondition is evaluated on it (bounded quantifiers expanded) and the real function is run on it
+        covers = [ob for ob in rep.obligations if ob.kind == 'cover']
+        if covers and hasattr(c, 'witness'):
+            pre_ok, judged = witness_ok(c, rep, variant)
+            E.reset(c.mode)
+            for ob in covers:
+                if pre_ok:
+                    ob.status, ob.backend, ob.secs = 'discharged', 'GROUND(witness)', 0.0
+            if pre_ok and judged is not None and judged['confirmed']:
+                name = '%s%s/witness.contract-holds-on-the-witness-input' % (c.target, '' if variant is None else '[%s]' % variant)
+                payload = {'function': c.target, 'source_sha256': rep.fn.sha, 'kind': 'witness',
+                           'solver': "the contract's witness input, run through the real function, violates the contract"}
+                payload.update(judged)
+                check.count('GROUND(witness)', 'failed', 0.0, name)
+                check.violation(name, payload, True)
+        todo = [ob for ob in rep.obligations if ob.status is None]
+        hints = getattr(rep, 'size_hints', ())
+        solve_all(todo, axioms, hints=hints, fast=True)
+        open_obs = [ob for ob in todo if ob.status == 'undecided']
+        found = None
+        if open_obs and hasattr(c, 'examples'):
+            # the solver gave up quickly (typically: a counter-model under quantified hypotheses).  Before spending the
+            # long budgets, look for a CONCRETE counterexample with the contract's example generator, judged on the real code.
+            found = search_examples(c, rep, variant, seed)
+            E.reset(c.mode)
+        if found is not None:
+            ob = ([o for o in open_obs if o.kind != 'cover'] or open_obs)[0]
+            payload = {'function': c.target, 'source_sha256': rep.fn.sha, 'kind': ob.kind, 'line': ob.line,
+                       'solver': 'solver answered unknown on this obligation; counterexample found by bounded search over the '
+                                 "contract's example generator and judged against the contract on the real function"}
+            payload.update(found)
+            ob.status = 'failed-by-example'
+            check.count('z3', 'failed', ob.secs, ob.name)
+            check.violation(ob.name, payload, True)
+            for o2 in open_obs[1:]:
+                o2.status = 'skipped'
+            rep.obligations = [o for o in rep.obligations if o.status not in ('failed-by-example', 'skipped')]
+        else:
+            for ob in open_obs:
+                ob.status = None
+            solve_all(open_obs, axioms, hints=hints)
         for ob in rep.obligations:
             check.count(ob.backend or 'z3', ob.status, ob.secs, ob.name, formula_size(ob) if len(check.samples) < 14 else None)
             if ob.status == 'undecided':
@@ -248,6 +283,16 @@ def _run_one(check, c, variant, reg, tier, seed=0, conformance_paths=None):
                     payload['solver_model'] = str(ob.model)[:4000]
             else:
                 payload['solver_output'] = 'sat (model unavailable)'
+            if not confirmed and hasattr(c, 'examples') and not getattr(rep, '_ex_done', False):
+                # the solver's model leaves abstract callee results arbitrary: look for a concrete failing input instead
+                rep._ex_done = True
+                rep._ex_found = search_examples(c, rep, variant, seed)
+                E.reset(c.mode)
+            if not confirmed and getattr(rep, '_ex_found', None):
+                payload.update(rep._ex_found)
+                payload['solver'] = ('obligation failed (solver counter-model did not replay because callee results are abstract); '
+                                     "concrete failing input found with the contract's example generator on the real function")
+                confirmed = True
             if not confirmed:
                 payload.setdefault('solver_model', str(ob.model)[:4000] if ob.model is not None else None)
             check.violation(ob.name, payload, confirmed)
@@ -259,7 +304,7 @@ def _run_one(check, c, variant, reg, tier, seed=0, conformance_paths=None):
             import random
             rnd = random.Random(seed)
             idxs = sorted(rnd.sample(idxs, limit))
-        if not fails:
+        if not fails and not getattr(rep, 'abstract_calls', False):
             for i in idxs:
                 try:
                     bad = conformance(c, rep, outs[i])
@@ -276,24 +321,51 @@ def _run_one(check, c, variant, reg, tier, seed=0, conformance_paths=None):
 
 
 
+def search_examples(c, rep, variant, seed, budget_s=40, limit=400):
+    """First concrete example (from the contract's generator) on which the real function violates the contract."""
+    import random
+    import time
+    from .execu import State
+    rnd = random.Random(seed)
+    t0 = time.time()
+    n = 0
+    E.reset(c.mode)
+    E.concrete = True
+    try:
+        for ca in (c.examples(rnd) if variant is None else c.examples(rnd, variant)):
+            n += 1
+            if n > limit or time.time() - t0 > budget_s:
+                break
+            E.reset(c.mode)
+            E.concrete = True
+            K = Kit(State())
+            if RP.truth_of(c.requires(K, ca), E.axioms) is not True:
+                continue
+            r = RP.judge_concrete(c, rep, K.st, ca)
+            if r['confirmed']:
+                r['examples_tried'] = n
+                return r
+    except Exception:
+        import traceback
+        traceback.print_exc()
+    return None
+
+
 def witness_ok(c, rep, variant):
+    """(precondition holds on the witness, judgement of the real run on the witness or None)."""
     from .execu import State
     E.reset(c.mode)
     E.concrete = True
     K = Kit(State())
     try:
         ca = c.witness(K) if variant is None else c.witness(K, variant)
-        pre = c.requires(K, ca)
-        if RP.truth_of(pre, E.axioms) is not True:
-            return False
-        # the witness is also run through the real function and judged with the contract
-        real = {k: v for k, v in ca.items()}
-        r = RP.judge_concrete(c, rep, K.st, real)
-        return not r['confirmed']
+        if RP.truth_of(c.requires(K, ca), E.axioms) is not True:
+            return False, None
+        return True, RP.judge_concrete(c, rep, K.st, dict(ca))
     except Exception:
         import traceback
         traceback.print_exc()
-        return False
+        return False, None
 
 
 def replay_known(check, reg):
